@@ -30,16 +30,18 @@
                             maintainer on (x, trait_added) ([KAdded], fourth step of the walk); add_trait
                             fires trait_added and the matching maintainers hook the new trait
                             (observer_change_handler l.151-172, [AddTrait]).
-   A node is G fs notify extra children (Common/ObsCore.v): named trait fs = [f], item observer
-   fs = [6|7|8] (extra = false), FilteredTraitObserver fs = matching names.  The `optional` flag is not
-   modelled: a named observer is skipped on an object without the trait (the harness passes
-   optional=True wherever the trait may be missing).
+   A node is G fs notify extra optional children (Common/ObsCore.v): named trait fs = [f], item observer
+   fs = [6|7|8] (extra = false), FilteredTraitObserver fs = matching names.  The `optional` flag: on an
+   object without the trait an optional named observer is skipped, a non-optional one makes the walk fail
+   with ValueError ([walkable]); a failed registration changes nothing, a maintainer that cannot hook the
+   new value has already unhooked the old one (ill-typed links - a named observer on a container object -
+   are not generated).
    Not modelled: dispatch="ui", weak references. *)
 From Coq Require Import List Arith Bool PeanoNat.
 From TV Require Import Common.ObsCore.
 Import ListNotations.
 
-Inductive exn := NotifierNotFound | OtherError.
+Inductive exn := NotifierNotFound | ValueError | OtherError.
 Inductive outcome := Ok | Raise (e : exn).
 
 (* one call of a user handler: notifier key, event.object, event.name (or the items
@@ -81,6 +83,8 @@ Inductive op :=
 | Probe (o : oid)                                    (* o.value = a fresh integer *)
 | AddTrait (o : oid) (f : fname)                     (* o.add_trait(name_f, Instance(HasTraits)) *)
 | DelCont (o : oid) (f : fname)                      (* del o.f for a List/Dict/Set trait that has a value *)
+| TouchItems (o : oid) (f : fname) (items : list oid) (* first read of an unset container trait whose default
+                                                        (a _name_default method) has content *)
 | SpliceCont (c : oid) (f fi : fname) (i n : nat) (items : list oid).
                                                      (* nested containers: d[key] = [items] on the dict object c of a
                                                         Dict(Str, List(...)) trait: the validated value is a NEW list
@@ -101,7 +105,7 @@ Definition next_objs (t : traits) (h : heap) (x : oid) (fs : list fname) : list 
 
 Fixpoint add_order (t : traits) (h : heap) (k : hkey) (g : graph) (x : oid) {struct g} : list hook :=
   match g with
-  | G fs n e cs =>
+  | G fs n e p cs =>
       flat_map (fun f => if n then [(x, f, KUser k)] else []) (obs_fields t x fs)   (* _add_or_remove_notifiers *)
       ++ flat_map (fun f => map (fun c => (x, f, KMaint k c)) cs) (obs_fields t x fs) (* _add_or_remove_maintainers *)
       ++ flat_map (fun c => flat_map (fun y => add_order t h k c y) (next_objs t h x fs)) cs
@@ -110,16 +114,35 @@ Fixpoint add_order (t : traits) (h : heap) (k : hkey) (g : graph) (x : oid) {str
   end.
 Fixpoint rem_order (t : traits) (h : heap) (k : hkey) (g : graph) (x : oid) {struct g} : list hook :=
   match g with
-  | G fs n e cs =>
+  | G fs n e p cs =>
       (if e then [(x, TA, KAdded k g)] else [])
       ++ flat_map (fun c => flat_map (fun y => rem_order t h k c y) (next_objs t h x fs)) cs
       ++ flat_map (fun f => map (fun c => (x, f, KMaint k c)) cs) (obs_fields t x fs)
       ++ flat_map (fun f => if n then [(x, f, KUser k)] else []) (obs_fields t x fs)
   end.
 
+(* Can the graph be hooked on x?  iter_observables / iter_objects of NamedTraitObserver raise ValueError when the
+   trait is missing and the observer is not optional (_named_trait_observer.py l.93-99, l.131-137); a node that
+   neither notifies nor has children never asks.  (Filter nodes are handed over with optional = true: a filter
+   simply does not match.) *)
+Fixpoint walkable (t : traits) (h : heap) (g : graph) (x : oid) {struct g} : bool :=
+  match g with
+  | G fs n _ p cs =>
+      forallb (fun f =>
+        if t x f then forallb (fun y => forallb (fun c => walkable t h c y) cs) (h x f)
+        else p || negb (n || match cs with [] => false | _ => true end)) fs
+  end.
+
 (* add_or_remove_notifiers(object=y, graph=c, remove=False) for every y, in order *)
 Definition add_objs (t : traits) (h : heap) (k : hkey) (c : graph) (ys : list oid) (H : list hook) : list hook :=
   fold_left (fun H y => H ++ add_order t h k c y) ys H.
+(* ... a walk that meets a missing non-optional trait raises ValueError; the outermost call undoes what it had
+   added (_observe.py l.109-118, shared log since the F8 repair): the objects before it stay hooked *)
+Fixpoint add_objs_w (t : traits) (h : heap) (k : hkey) (c : graph) (ys : list oid) (H : list hook) : list hook * bool :=
+  match ys with
+  | [] => (H, true)
+  | y :: ys' => if walkable t h c y then add_objs_w t h k c ys' (H ++ add_order t h k c y) else (H, false)
+  end.
 (* ... remove=True: every object is its own outermost call; a failing call restores the
    hooks it had removed and raises *)
 Fixpoint rem_objs (t : traits) (h : heap) (k : hkey) (c : graph) (ys : list oid) (H : list hook) : list hook * bool :=
@@ -136,9 +159,10 @@ Fixpoint rem_objs (t : traits) (h : heap) (k : hkey) (c : graph) (ys : list oid)
 Definition maintain (t : traits) (h : heap) (strict : bool) (k : hkey) (c : graph) (rem add : list oid)
            (H : list hook) : list hook * bool :=
   let '(H1, ok) := rem_objs t h k c rem H in
-  if ok then (add_objs t h k c add H1, true)
-  else if strict then (H1, false)            (* item observers: NotifierNotFound propagates *)
-  else (add_objs t h k c add H1, true).      (* named traits: swallowed, the new value is hooked *)
+  if ok || negb strict                       (* named traits: NotifierNotFound of the removal is swallowed *)
+  then add_objs_w t h k c add H1             (* the old value is unhooked BEFORE the new one is hooked: when
+                                                hooking raises ValueError the old value stays unhooked *)
+  else (H1, false).                          (* item observers: NotifierNotFound propagates *)
 
 Fixpoint mem_key (k : hkey) (l : list hkey) : bool :=
   match l with [] => false | a :: l' => hkey_eqb k a || mem_key k l' end.
@@ -176,7 +200,12 @@ Definition change (st : state) (o : oid) (fo : fname) (news removed added : list
   let extra := if strict && ok1 then skipn (length ns) (on_slot H1 o fo) else [] in
   let '(H', ks2, ok2) := notify_loop t h' strict extra ks1 removed added H1 in
   (mkState t h' H' (st_regs st) (st_next st),
-   mkObs (if ok1 && ok2 then Ok else Raise NotifierNotFound)
+   mkObs (if ok1 && ok2 then Ok
+          else if existsb (fun kc => existsb (fun y => negb (walkable t h' (snd kc) y)) added)
+                          (maint_on (st_hooks st) o fo)
+               then Raise ValueError          (* a maintainer could not hook a new object (on cyclic heaps with
+                                                 unhookable objects the class of the exception is approximated) *)
+               else Raise NotifierNotFound)
          (if prevented then [] else map (fun k => (k, o, fo, removed, added)) (ks1 ++ ks2))
          [(o, fo, news)]).
 
@@ -227,7 +256,7 @@ Fixpoint unobserve_all (st : state) (k : nat) (r : oid) (gs : list graph) : opti
    TraitAddedObserver maintainer whose observer matches the new name hooks the new trait *)
 Definition restricted_add (t : traits) (h : heap) (k : hkey) (g : graph) (x : oid) (f : fname) : list hook :=
   match g with
-  | G fs n _ cs =>
+  | G fs n _ _ cs =>
       flat_map (fun f' => if Nat.eqb f' f then
                             (if n then [(x, f, KUser k)] else []) ++ map (fun c => (x, f, KMaint k c)) cs
                             ++ flat_map (fun c => flat_map (fun y => add_order t h k c y) (h x f)) cs
@@ -249,8 +278,10 @@ Definition step (st : state) (o : op) : state * obs :=
   let t := st_traits st in
   match o with
   | Observe k r g =>                                  (* observe.py l.50-58 -> add_or_remove_notifiers *)
-      (mkState t h (st_hooks st ++ add_order t h (k, r) g r) (st_regs st ++ [((k, r), g)]) (st_next st),
-       mkObs Ok [] [])
+      if walkable t h g r then
+        (mkState t h (st_hooks st ++ add_order t h (k, r) g r) (st_regs st ++ [((k, r), g)]) (st_next st),
+         mkObs Ok [] [])
+      else (st, mkObs (Raise ValueError) [] [])       (* the failed walk is undone completely: nothing changes *)
   | Unobserve k r g =>
       match remove_all (rem_order t h (k, r) g r) (st_hooks st) with
       | Some H' => (mkState t h H' (remove_reg ((k, r), g) (st_regs st)) (st_next st), mkObs Ok [] [])
@@ -264,7 +295,9 @@ Definition step (st : state) (o : op) : state * obs :=
         let '(H', ks) := added_loop t' h x f (on_slot (st_hooks st) x TA) [] (st_hooks st) in
         (mkState t' h H' (st_regs st) (st_next st),
          mkObs Ok (map (fun k => (k, x, TA, [], [])) ks) [])
-  | ObserveAll k r gs => (fold_left (fun s g => observe1 s k r g) gs st, mkObs Ok [] [])
+  | ObserveAll k r gs =>
+      if forallb (fun g => walkable t h g r) gs then (fold_left (fun s g => observe1 s k r g) gs st, mkObs Ok [] [])
+      else (st, mkObs (Raise ValueError) [] [])       (* apply_observers undoes the graphs already applied *)
   | UnobserveAll k r gs =>
       match unobserve_all st k r gs with
       | Some st' => (st', mkObs Ok [] [])
@@ -300,6 +333,16 @@ Definition step (st : state) (o : op) : state * obs :=
       | _ => change st c f (splice olds i n vs) removed vs false true
       end
   | Probe x => change st x 0 (h x 0) [] [] false false
+  | TouchItems x f items =>
+      match h x f with
+      | [] => let c := st_next st in                  (* getattr_trait: the default is stored, old = Uninitialized:
+                                                         maintainers hook the new container and its items, user
+                                                         notifiers are prevented *)
+              let st1 := mkState t (upd h c (items_field f) items) (st_hooks st) (st_regs st) (S c) in
+              let '(st2, ob) := change st1 x f [c] [] [c] true false in
+              (st2, mkObs (ob_out ob) (ob_calls ob) ((c, items_field f, items) :: ob_delta ob))
+      | _ => quiet st
+      end
   | SpliceCont c f fi i n items =>
       let c' := st_next st in
       let olds := h c f in
@@ -336,7 +379,9 @@ Fixpoint final (st : state) (ops : list op) : state :=
 (* ---- the hypotheses of the theorems (Props.v), as executable checks on a state ---- *)
 Definition edge_acyclic_b (t : traits) (h : heap) (rs : list reg) (o : oid) (fo : fname) (news : list oid) : bool :=
   negb (Nat.eqb fo TA) &&           (* the changed trait is not the trait_added event trait *)
-  forallb (fun kc : hkey * graph => forallb (fun y => negb (visits t h (snd kc) y o fo)) (h o fo ++ news))
+  forallb (fun kc : hkey * graph =>
+             forallb (fun y => negb (visits t h (snd kc) y o fo)) (h o fo ++ news)
+             && forallb (walkable t (upd h o fo news) (snd kc)) news)   (* ... and the new content can be hooked *)
           (occ_all t h rs o fo).
 
 Definition is_nil_b (l : list oid) : bool := match l with [] => true | _ => false end.
@@ -359,6 +404,9 @@ Definition op_hyp (st : state) (o : op) : bool :=
   let rs := st_regs st in
   match o with
   | DelCont _ _ => false      (* outside the theorems: the double notification breaks the invariant *)
+  | TouchItems x f items =>
+      let c := st_next st in
+      fresh_b t h rs c (items_field f) && edge_acyclic_b t (upd h c (items_field f) items) rs x f [c]
   | SpliceCont c f fi i n items =>
       let c' := st_next st in
       negb (Nat.eqb f fi) && fresh_b t h rs c' fi
@@ -366,9 +414,9 @@ Definition op_hyp (st : state) (o : op) : bool :=
   | AddTrait x f =>          (* a new trait has no value yet; nodes naming it carry the trait_added graph *)
       (* re-adding an existing trait keeps its notifiers (has_traits.py add_trait l.2843-2848): nothing changes *)
       t x f || (is_nil_b (h x f) && forallb (fun r : reg => wf_dyn f (snd r)) rs)
-  | Observe _ _ _ => true
+  | Observe _ r g => walkable t h g r
   | Unobserve k r g => existsb (reg_eqb ((k, r), g)) rs
-  | ObserveAll _ _ _ => true
+  | ObserveAll _ r gs => forallb (fun g => walkable t h g r) gs
   | UnobserveAll k r gs => regs_present k r gs rs
   | SetRef x f v => edge_acyclic_b t h rs x f v
   | SetCont x f items _ =>
@@ -404,5 +452,6 @@ Definition notified (st : state) (o : op) : option (oid * fname) :=
   | AddTrait x f => if st_traits st x f then None else Some (x, TA)
   | DelCont x f => None
   | SpliceCont c f _ _ _ _ => Some (c, f)
+  | TouchItems _ _ _ => None
   end.
 
